@@ -20,7 +20,7 @@ LEVEL_TEXT = (
 LEVEL_NOTE = "Trusts vlib/detsched.py's blocking model (a watchdog hit is reported as inconclusive/exit 2, never a violation)."
 TECHNIQUE = "property-based testing under a deterministic scheduler with exact deadlock detection; leftover-thread and empty-log invariants"
 RULE = (
-    "(also: transform_physical callbacks that close a cycle - error, and no call/read/write; one store object as the source of 2-4 nodes with a failing modified-time query) (also: the OS refusing the k-th Thread.start, self-dependencies, a bundled HTML display whose sink fails persistently) Hypothesis draws a plan (0..8/14 nodes; optionally registry), always-failing calls of any exception kind, max_errors, "
+    "(also: a bundled HTML display with a working sink, on model threading and fake time - it must stop when the run ends) (also: transform_physical callbacks that close a cycle - error, and no call/read/write; one store object as the source of 2-4 nodes with a failing modified-time query) (also: the OS refusing the k-th Thread.start, self-dependencies, a bundled HTML display whose sink fails persistently) Hypothesis draws a plan (0..8/14 nodes; optionally registry), always-failing calls of any exception kind, max_errors, "
     "workers 1..nodes+3, scheduler, schedule; one case in four adds a back-edge b->a (a an ancestor of b) making the "
     "plan cyclic. Oracle: no deadlock/divergence verdict; when run returns or raises no task/thread it created is alive "
     "and no event is logged afterwards; a cycle among examined nodes (whole plan with a registry, ancestors of the output "
